@@ -147,3 +147,16 @@ META["C12"] = M(
          "counted; per column: optimality against the extended-precision Krylov optimum in the calibrated regimes R1/R2, "
          "residual consistency, monotone A-norm error, the stopping contract on logical steps, bookkeeping, exact zeros, "
          "linearity and column independence; distinct = full configuration tuple")
+
+META["C13"] = M(
+    shards={"quick": 16, "thorough": 64}, budget={"quick": 50, "thorough": 800},
+    floors={"quick": {"evals": 5000, "distinct": 250}, "thorough": {"evals": 100000, "distinct": 1500}},
+    required=["minimal-residual", "not-above-initial-residual", "non-increasing-in-m", "zero-residual-at-full-degree",
+              "product-count"],
+    rule="invertible operators V diag(l) V^-1 (real with conjugate pairs / complex, normal and non-normal with cond(V)<=3, "
+         "|l| in [1,3] in the right half plane, n 1..40 (150 in thorough), kappa<=1e2 re-measured), right-hand sides generic / one "
+         "eigenvector / few eigenvectors (early breakdown), single and multiple, x0 none/zero/random, tol 1e-12..1e-6, through "
+         "gmres() and inv(A, GMRES()) @ b; for a sweep of m below, at and beyond n the residual of the returned iterate is "
+         "compared with the reference minimum over x0 + K_m (orthonormal basis + dense least squares), with the initial "
+         "residual, with the previous m, and with zero once m reaches the degree known by construction; products with A are "
+         "counted; distinct = configuration tuple")
